@@ -175,7 +175,8 @@ Definition C13_total_on_dumps_full_statement : Prop :=
 
 (* Proved: for every value of the C05 fragment (c05_guard: JSON scalars; arbitrarily nested list / tuple / set; dict /
    OrderedDict / defaultdict; slices; function and type names; attrgetter / itemgetter; numpy arrays and scalars; sparse
-   matrices; dtypes; masked arrays; RandomState / Generator; functools.partial; bytes / bytearray; rank-1 object arrays;
+   matrices; dtypes; masked arrays; RandomState / Generator; functools.partial; bytes / bytearray; object arrays of EVERY
+   rank (0 included: C13-F1 repaired, the content of the array's state is a list for every rank) with cells in the fragment;
    arbitrary sharing of sub-objects; nesting depth below get_tree's fuel), every load environment E with this run's registry and protocol and the archive's member
    list (whatever the node classes' default-trusted names are), every skipped-kind list containing SliceNode, and EVERY
    trusted list T there are a root row r (level 0) and a pre-order forest f of rows at levels >= 1 (first child / next
@@ -275,6 +276,25 @@ Example C13_total_nonvacuous_bytes :
       do l <- visualize (dump_env a) [] (a_schema a) None ShowAll; Ok (map (fun x => (r_level x, r_val x)) l))
      = Ok [(0, s "builtins.tuple"); (1, s "<bytes>"); (1, s "bytearray(<bytes>)"); (1, s "<bytes>"); (1, s "numpy.ndarray");
            (2, s "<bytes>"); (2, s "json-type(1)"); (2, s "builtins.tuple"); (3, s "json-type(2)"); (1, s "json-type(2)")]%nat.
+Proof. repeat split; vm_compute; reflexivity. Qed.
+
+(* C13-F1 (repaired): a rank-0 object array used to be dumped with the state of its cell in place of a list of states:
+   get_tree raised AttributeError, so did visualize.  The former witness shape -- a rank-0 array holding a list -- and arrays
+   of rank 2 (lists as cells: one ListNode per axis below the first; a zero-length axis) are values of the proved fragment;
+   with no skipped kind the walk shows the array's node, its content and the shape tuple: for rank 0 the cell directly
+   below the array (level 1: list, level 2: its items) and the empty shape tuple; for shape (2,2) the two row lists, their
+   cells (lists) and the shape tuple (2, 2) *)
+Example C13_total_nonvacuous_objarr_ranks :
+  forallb (fun w => c05_guard wf (wd Snapshot.current) wbase w) [w_objarr_rank0; w_objarr_seq; w_objarr_20] = true
+  /\ vis_of w_objarr_rank0 None ShowAll = rows_of w_objarr_rank0 None
+  /\ (do a <- dumps_model (wd Snapshot.current) wbase w_objarr_rank0;
+      do l <- visualize (dump_env a) [] (a_schema a) None ShowAll; Ok (map (fun x => (r_level x, r_val x)) l))
+     = Ok [(0, s "numpy.ndarray"); (1, s "builtins.list"); (2, s "json-type(1)"); (2, s "json-type(2)"); (1, s "builtins.tuple")]%nat
+  /\ (do a <- dumps_model (wd Snapshot.current) wbase w_objarr_seq;
+      do l <- visualize (dump_env a) [] (a_schema a) None ShowAll; Ok (map (fun x => r_level x) l))
+     = Ok [0; 1; 2; 3; 3; 2; 3; 3; 1; 2; 3; 3; 2; 3; 3; 1; 2; 2]%nat
+  /\ (do a <- dumps_model (wd Snapshot.current) wbase w_objarr_20;
+      do l <- visualize (dump_env a) [] (a_schema a) None ShowUntrusted; Ok (map (fun x => r_level x) l)) = Ok [0%nat].
 Proof. repeat split; vm_compute; reflexivity. Qed.
 
 (* D24 (repaired): show = "trusted" hides a node whose own type is untrusted; its trusted children used to be emitted one
